@@ -186,7 +186,7 @@ def build_static(t0, nint, lab, pose, ne=None, replace_short=True, fit="dlite", 
     q = pose or {"rot_mode": "zero", "shift": [0.0, 0.0]}
     s = 10.0 ** q.get("logscale", 0.0)
     t1 = t0.similarity(scale=s, reflect=bool(q.get("reflect")))
-    angle = gen.pose_angle(t1, q)
+    angle = gen.pose_angle(t1, q, nint)
     ext = t1.extent()
     sh = complex(q["shift"][0], q["shift"][1]) * ext
     cols, rows, at, ambiguous = structure(t1, nint, ignore_four)
